@@ -61,7 +61,9 @@ fn kernel(a: &LjAtom, pa: [f64; 2], b: &LjAtom, pb: [f64; 2]) -> f64 {
 /// Exhaustive lattice sum: every pair of distinct molecule images within reach, each once.
 pub fn reference(atoms: &[LjAtom], pl: &[Affine], lat: &Lattice, uncut_reach_sigma: f64) -> Reference {
     let n = pl.len();
-    let ext = atoms.iter().map(|a| geom::norm(a.p)).fold(0., f64::max);
+    // furthest particle from its molecule's origin, measured on the placed copies (the linear
+    // part of a placement is applied as it is: user groups may stretch a copy)
+    let ext = pl.iter().flat_map(|t| atoms.iter().map(move |a| geom::norm(geom::sub(t.apply(a.p), t.t)))).fold(atoms.iter().map(|a| geom::norm(a.p)).fold(0., f64::max), f64::max);
     let uncut = atoms.iter().any(|a| a.cutoff.is_none());
     let smax = atoms.iter().map(|a| a.sigma).fold(0., f64::max);
     let rc = if uncut { uncut_reach_sigma * smax } else { atoms.iter().filter_map(|a| a.cutoff).fold(0., f64::max) };
@@ -462,6 +464,61 @@ pub fn gen_case<R: Rng>(rng: &mut R) -> Case {
     Case { group, shape, params, shift, face }
 }
 
+/// States of user-defined groups on other lattices (p4 on a square cell, p3 and p6 on the 60
+/// degree cell): whatever copies the library places, the score is minus their lattice energy
+/// per molecule.
+pub fn check_user_group(seed: u64, st: &mut Stats) {
+    use packing::CrystalFamily;
+    st.eval();
+    let mut rng = crate::common::rng_for(seed, 3333);
+    let (name, family, ops): (&str, CrystalFamily, Vec<&str>) = match rng.gen_range(0, 4) {
+        0 => ("p4", CrystalFamily::Tetragonal, vec!["x,y", "-y,x", "-x,-y", "y,-x"]),
+        1 => ("p3", CrystalFamily::Hexagonal, vec!["x,y", "-y,x-y", "-x+y,-x"]),
+        2 => ("p3", CrystalFamily::Hexagonal, vec!["x,y", "-x-y,x", "y,-x-y"]),
+        _ => ("p6", CrystalFamily::Hexagonal, vec!["x,y", "-y,x-y", "-x+y,-x", "-x,-y", "y,-x+y", "x-y,x"]),
+    };
+    let g = packing::WallpaperGroup { name, family, wyckoff_str: ops.clone() };
+    let shape = LJShape2::from_trimer(0.637556, [120., 180., 90.][rng.gen_range(0, 3)], rng.gen_range(0.8, 1.6));
+    let s0 = match PotentialState::from_group(shape, &g) {
+        Ok(s) => s,
+        Err(_) => return,
+    };
+    let mut v = match serde_json::to_value(&s0) {
+        Ok(v) => v,
+        Err(_) => return,
+    };
+    v["cell"]["length"] = json!(rng.gen_range(4., 12.));
+    v["occupied_sites"][0]["x"] = json!(rng.gen_range(-0.5, 0.5));
+    v["occupied_sites"][0]["y"] = json!(rng.gen_range(-0.5, 0.5));
+    v["occupied_sites"][0]["angle"] = json!(rng.gen_range(0., 6.28));
+    let state: PotentialState<LJShape2> = match serde_json::from_value(v) {
+        Ok(s) => s,
+        Err(_) => return,
+    };
+    let atoms = lj_atoms(&state.shape);
+    let pl: Vec<Affine> = state.cartesian_positions().map(|t| to_affine(&t)).collect();
+    let lat = lattice_of(&state.cell);
+    let r = reference(&atoms, &pl, &lat, 40.);
+    let s = match state.score() {
+        Some(s) if s.is_finite() => s,
+        _ => return,
+    };
+    if r.degenerate {
+        return;
+    }
+    st.nontrivial(hash64(&[3334, seed]));
+    st.count("states_of_user_defined_groups_on_square_and_hexagonal_cells");
+    let tol = tolerance(&r);
+    if !((s + r.energy).abs() <= tol) && !is_three_shell_sum(s, &r) {
+        st.violation(Violation {
+            kind: "c03.usergroup".into(),
+            signature: "PotentialState::score:not-the-lattice-energy-per-molecule:user-defined-group".into(),
+            case: json!({ "user_group_seed": seed }),
+            detail: json!({"group": name, "operations": ops, "molecules": pl.len(), "library_score": s, "minus_lattice_energy_per_molecule": -r.energy, "tolerance": tol, "cell": {"a": lat.a, "b": lat.b, "angle": lat.theta}}),
+        });
+    }
+}
+
 /// one Lennard-Jones state object edited again and again; clause 1 after every edit
 pub fn check_history(h: &History, st: &mut Stats) {
     let before = st.violations.len();
@@ -504,7 +561,7 @@ pub fn gen_history<R: Rng>(rng: &mut R) -> History {
 }
 
 pub fn run(ctx: &Ctx) {
-    ctx.set_rule("Lennard-Jones states of all 7 groups x {circle (uncut), trimers over the CLI's ranges (cutoff 3.5)} x cells (ratio 0.25-1, oblique angle pi/6-pi/2) at densities from strongly overlapping (0.3 molecule areas per molecule) to dilute (6), sites incl. special positions. Reference: exhaustive sum over EVERY pair of distinct molecule images within cutoff + extents (uncut: 40 sigma), each once, divided by N; pair kernel = the library's LJ2::energy (checked by C13) and, for like particles, the independent 12-6 law. Tolerance 1e-9 of the summed term magnitudes (uncut: 3% of the attractive sum). Also state objects that live through histories of 3-13 edits (several parameters at once, shape or cell replaced, clone(), JSON round trip), clause 1 after every edit. Also states with several occupied sites of different multiplicity (and with dozens of sites: 33-140 molecules per cell) (PotentialState::initialise with hand-made sites). Metamorphic: a copy moved across a cell face (1/2-1e-9 vs -1/2+1e-9) and origin shifts by the group's normaliser translations must not change the score. Non-trivial = at least one in-cell pair and one image pair carry energy; distinct by quantised parameters");
+    ctx.set_rule("Lennard-Jones states of all 7 groups x {circle (uncut), trimers over the CLI's ranges (cutoff 3.5)} x cells (ratio 0.25-1, oblique angle pi/6-pi/2) at densities from strongly overlapping (0.3 molecule areas per molecule) to dilute (6), sites incl. special positions. Reference: exhaustive sum over EVERY pair of distinct molecule images within cutoff + extents (uncut: 40 sigma), each once, divided by N; pair kernel = the library's LJ2::energy (checked by C13) and, for like particles, the independent 12-6 law. Tolerance 1e-9 of the summed term magnitudes (uncut: 3% of the attractive sum). Also states of user-defined p4 / p3 / p6 groups on square and 60-degree cells (the copies the library places, stretched or not). Also state objects that live through histories of 3-13 edits (several parameters at once, shape or cell replaced, clone(), JSON round trip), clause 1 after every edit. Also states with several occupied sites of different multiplicity (and with dozens of sites: 33-140 molecules per cell) (PotentialState::initialise with hand-made sites). Metamorphic: a copy moved across a cell face (1/2-1e-9 vs -1/2+1e-9) and origin shifts by the group's normaliser translations must not change the score. Non-trivial = at least one in-cell pair and one image pair carry energy; distinct by quantised parameters");
     ctx.assume("pair energies are the library's own (C13 decides them); placements are read from cartesian_positions()");
     let n = ctx.tier.pick(5_000u64, 300_000u64);
     par_shards(ctx, 3, 64, |_, rng, st| {
@@ -513,6 +570,9 @@ pub fn run(ctx: &Ctx) {
         }
         for _ in 0..(n / 40).max(5) {
             check_history(&gen_history(rng), st);
+        }
+        for _ in 0..(n / 30).max(5) {
+            check_user_group(rng.gen(), st);
         }
         for _ in 0..(n / 50).max(5) {
             check_multi_site(rng.gen(), st);
@@ -525,6 +585,8 @@ pub fn replay(ctx: &Ctx, case: &Value) {
     let mut st = Stats::new();
     if let (Some(seed), true) = (case["seed"].as_u64(), case.get("group").is_none()) {
         check_multi_site(seed, &mut st);
+    } else if let Some(seed) = case["user_group_seed"].as_u64() {
+        check_user_group(seed, &mut st);
     } else if let Ok(h) = serde_json::from_value::<History>(case.clone()) {
         check_history(&h, &mut st);
     } else if let Ok(c) = serde_json::from_value::<Case>(case.clone()) {
